@@ -87,3 +87,8 @@ pub axiom fn axiom_instant_cmp_all()
         <Instant as PartialOrdSpec<Instant>>::obeys_partial_cmp_spec(),
         forall|a: Instant, b: Instant| #![trigger a.partial_cmp_spec(&b)] a.partial_cmp_spec(&b) == Some(ord_of(ins(a), ins(b))),
 ;
+
+// std: Duration::is_zero "Returns true if this Duration spans no time."
+pub assume_specification [ std::time::Duration::is_zero ] (d: &Duration) -> (r: bool)
+    ensures r == (dns(*d) == 0),
+;
